@@ -94,7 +94,15 @@ def prepare(pid=None):
                     os.remove(tmp)
                 continue
             replace_if_changed(tmp, dst)
-        # Coq
+        # Coq: every source file of the development must be part of the project
+        listed = set(l.strip() for l in open(os.path.join(COQ, "_CoqProject")) if l.strip().endswith(".v"))
+        present = set()
+        for sub in ("", "props", "gen"):
+            for f in glob.glob(os.path.join(COQ, sub, "*.v")):
+                present.add(os.path.relpath(f, COQ))
+        unlisted = sorted(present - listed)
+        if unlisted:
+            sys.exit("machinery error: Coq sources not listed in coq/_CoqProject: " + " ".join(unlisted))
         mk = os.path.join(COQ, "Makefile")
         if newer(os.path.join(COQ, "_CoqProject"), mk):
             run(["coq_makefile", "-f", "_CoqProject", "-o", "Makefile"], cwd=COQ, timeout=60)
